@@ -858,6 +858,9 @@ class exists_elim(Method):
                         item.args = [exists_prop] + item.args
                     item.prevs = item.prevs[:-1] + new_intros + [item.prevs[-1]]
                     break
+                elif item.subproof:
+                    # An already expanded block keeps its lines
+                    item.th = Thm(item.th.prop, item.th.hyps, body)
                 else:
                     state.set_line(id.incr_id(i), item.rule, args=item.args, prevs=item.prevs, \
                                    th=Thm(item.th.prop, item.th.hyps, body))
